@@ -46,6 +46,7 @@ type Parser struct {
 
 	resolvePasses    uint32
 	mergedScopes     uint32
+	prevMergedScopes uint32
 	relocatedObjects uint32
 
 	mode parseMode
@@ -169,6 +170,7 @@ func (p *Parser) resetState(tableHandle uint8, tableName string) {
 	p.tableName = tableName
 	p.resolvePasses = 0
 	p.mergedScopes = 0
+	p.prevMergedScopes = 0
 	p.relocatedObjects = 0
 	p.mode = parseModeSkipAmbiguousBlocks
 
@@ -1094,12 +1096,23 @@ func (p *Parser) mergeScopeDirectives(objIndex uint32) parseResult {
 	)
 
 	if objIndex == 0 {
+		p.prevMergedScopes = p.mergedScopes
 		p.mergedScopes = 0
 	}
 
 	// Ignore executable section contents
 	if pOpcodeTable[obj.infoIndex].flags&pOpFlagExecutable != 0 {
 		return res
+	}
+
+	// A named object whose namepath still carries a path prefix has not been
+	// moved to the scope it belongs to yet. Scope directives inside it must be
+	// resolved from that scope and not from the place where the object happens
+	// to be declared; wait for relocateNamedObjects to move it first.
+	if pOpcodeTable[obj.infoIndex].flags&pOpFlagNamed != 0 && obj.opcode != pOpIntScopeBlock && obj.firstArgIndex != InvalidIndex && obj.tableHandle == p.tableHandle {
+		if namepath, ok := p.objTree.ObjectAt(obj.firstArgIndex).value.([]byte); ok && len(namepath) > amlNameLen {
+			return parseResultRequireExtraPass
+		}
 	}
 
 	if obj.opcode == pOpScope && obj.tableHandle == p.tableHandle {
@@ -1117,7 +1130,9 @@ func (p *Parser) mergeScopeDirectives(objIndex uint32) parseResult {
 		// relocateNamedObjects passes to resolve things. If however no objects got
 		// relocated in the previous pass then report this as an error.
 		if targetIndex == InvalidIndex {
-			if p.resolvePasses > 1 && p.relocatedObjects == 0 {
+			// Give up only if the previous pass made no progress at all: a pass
+			// that merged other Scope directives may have made this one resolvable.
+			if p.resolvePasses > 1 && p.relocatedObjects == 0 && p.prevMergedScopes == 0 && p.mergedScopes == 0 {
 				kfmt.Fprintf(p.errWriter, "[table: %s, offset: 0x%x] unable to resolve reference to scope \"%s\"\n", p.tableName, obj.amlOffset, targetName)
 				return parseResultFailed
 			}
